@@ -12,6 +12,15 @@
 #   5b ALLOCATOR-BALANCE runs: API programs over real transports (inproc, ipc, tcp), devices included:
 #      nothing timing dependent is compared -- only sanitizer reports, sized frees, message counters
 #      after everything is closed, and 0 bytes outstanding after nng_fini;
+#   5c MESSAGE-MANIPULATION runs (coq/Ledger/ChunkAlloc.v): programs of nng_msg_alloc / append / insert / trim / chop /
+#      realloc / reserve / clear / header ops / dup / free on message slots, sizes straddling the head and tail room and
+#      up to several KB, allocation failures injected; the driver prints the allocator events of every call
+#      (A<size> / F<allocated size>:<size passed to free>) and what the allocator knows of the body block; the same
+#      program on the extracted model; line by line equal.  The same operations mixed with sends and receives over
+#      inproc / ipc / tcp (pub fan-out, pair, pipeline, req/rep, bus): received messages are adopted into the model with
+#      the geometry the allocator reports, grown, sent on, freed.  In the ledger runs the sends build their messages
+#      through seven allocation histories (mstyle) with bodies beyond the tail room.  EVERY free on EVERY thread is
+#      compared with the allocation's size: `free-size-mismatch <alloc> <free>` on any line is a violation;
 #   6 evidence.
 import os, random, re, sys, time
 from protolib import *
@@ -355,9 +364,19 @@ def borrowed_generators(rng):
 
 
 # ------------------------------------------------------------------ oracle (on the implementation's own observations)
+RELTOK = re.compile(r"\[R\d+[+-]\d+\]")
+MISMATCH = re.compile(r"free-size-mismatch (\d+) (\d+)")
+
+
 def oracle(case, lines):
     """C03's words on what the library itself showed.  Returns (op index, text, key) or None."""
     for k, l in enumerate(lines):
+        mm = MISMATCH.search(l)
+        if mm:
+            return (min(k, len(case) - 1), "a block of %s bytes was returned to the pluggable allocator as %s bytes (free-size-mismatch %s %s): "
+                    "every block must go back with the size it was allocated with" % (mm.group(1), mm.group(2), mm.group(1), mm.group(2)), None)
+        if l.startswith("m books=") and k < len(case) and k == len(case) - 1 and l.split()[1] != "books=0:0":
+            return (k, "every message of the program has been freed and the allocator still has blocks outstanding (%s)" % l, None)
         if l.startswith("leaked "):
             return (len(case) - 1, "after everything was closed the library still holds message references (%s): a leak" % l, None)
         if l.startswith("allocbad "):
@@ -568,6 +587,10 @@ def gen_program(rng, transports):
             L.append(rng.choice(["lclose l0", "dclose d0"]))
         elif r < 0.95:
             L.append("msleep %d" % rng.choice([1, 5, 30]))
+            if tr in ("tcp", "ipc") and "s0" in socks and rng.random() < 0.6:
+                # a peer that is lost in mid-message (the transport holds a partially received message)
+                ann = rng.choice([1, 10, 1000, 70000])
+                L.append("rawpeer l0 %d %d %d %d" % (PEER[base(a)], ann, rng.choice([0, 1, min(ann - 1, 10), ann - 1]), rng.choice([1, 5, 20])))
         elif r < 0.97 and len(socks) > 1:
             x = socks.pop(rng.randrange(len(socks))); L.append("close " + x)
             ctxs = [c for c in ctxs if c[1] != x]
@@ -575,6 +598,25 @@ def gen_program(rng, transports):
             L.append("poll")
     L.append("settle")
     return L
+
+
+def gen_midmsg_programs(rng):
+    """every protocol's socket listening on tcp and on ipc; plain-socket peers that complete the handshake, announce a
+    message, send a part of it (nothing, one byte, all but one) and die; a healthy peer next to them"""
+    progs = []
+    for tr in ("tcp", "ipc"):
+        for p in PROTOS + ["req0_raw", "rep0_raw", "sub0_raw", "pull0_raw", "pair1_raw", "bus0_raw"]:
+            lu, du = url_pair(rng, tr)
+            L = ["xopen s0 " + p]
+            if p == "sub0":
+                L.append("setopt s0 x sub -")
+            L.append("listen s0 l0 " + lu)
+            for ann, snd in [(1000, 10), (8, 0), (70000, 69999), (3, 2)]:
+                L.append("rawpeer l0 %d %d %d %d" % (PEER[base(p)], ann, snd, rng.choice([2, 5, 15])))
+                L.append("brecv s0 %d" % rng.choice([0, 5]))
+            L += ["rawpeer l0 %d 4 4 5" % PEER[base(p)], "brecv s0 20", rng.choice(["close s0", "lclose l0", "msleep 5"]), "settle"]
+            progs.append(L)
+    return progs
 
 
 def gen_device_program(rng, transports):
@@ -637,7 +679,7 @@ def gen_device_stress(rng, k):
     return L
 
 
-def balance_run(rep, impl, programs, stats, B=25, tmo=90):
+def balance_run(rep, impl, programs, stats, B=25, tmo=90, collect=None):
     """programs over real transports: judge only what cannot depend on timing"""
     impl = fresh_impl(impl)
     found = 0
@@ -668,9 +710,14 @@ def balance_run(rep, impl, programs, stats, B=25, tmo=90):
         for ci, c in enumerate(batch):
             stats["programs"] += 1
             rep.cov["evaluations"] += len(c)
+            if collect is not None:
+                collect.append((c, out[ci]))
             for l in out[ci]:
                 bad = None
-                if l.startswith("leaked "):
+                mm = MISMATCH.search(l)
+                if mm:
+                    bad = "a block of %s bytes was returned to the pluggable allocator as %s bytes (free-size-mismatch %s %s)" % (mm.group(1), mm.group(2), mm.group(1), mm.group(2))
+                elif l.startswith("leaked "):
                     bad = "after everything was closed the library still holds message references (%s)" % l
                 elif l.startswith("allocbad ") or "ALLOC-BAD" in l:
                     bad = "bad free handed to the pluggable allocator: %s" % l
@@ -717,6 +764,200 @@ def fini_check(rep, impl, programs, stats, key=None, tmo=300):
         rep.violation(p, "after nng_fini the pluggable allocator is not balanced: %s" % fin[0], key=(key if only_msgs else None))
 
 
+
+# ------------------------------------------------------------------ the message-manipulation family
+MSIZES = [0, 1, 2, 7, 8, 9, 15, 16, 17, 24, 31, 32, 33, 39, 40, 41, 47, 48, 56, 63, 64, 65, 72, 100, 127, 128, 129, 255, 256, 257, 300,
+          511, 512, 513, 1000, 1015, 1016, 1023, 1024, 1025, 2047, 2048, 2049, 3000, 4095, 4096, 4097, 5000, 8192, 9000]
+MSMALL = [0, 1, 4, 8, 16, 31, 32, 33, 64]
+PADS = [30, 33, 61, 100, 300, 1000]
+
+
+def msz(rng):
+    return rng.choice(MSIZES) if rng.random() < 0.7 else rng.randrange(0, 10000)
+
+
+def gen_msg_ops(rng, k, n, fail=True):
+    """n random operations of the message API on slot m<k> (the slot may be empty: those answer ENOENT on both sides)"""
+    L = []
+    for _ in range(n):
+        r = rng.random()
+        if fail and rng.random() < 0.06:
+            L.append("mfail %d" % rng.randrange(2))
+        if r < 0.20:
+            L.append("mappend m%d %d" % (k, msz(rng)))
+        elif r < 0.38:
+            L.append("minsert m%d %d" % (k, msz(rng)))
+        elif r < 0.46:
+            L.append("mtrim m%d %d" % (k, rng.choice(MSMALL) if rng.random() < 0.7 else msz(rng)))
+        elif r < 0.54:
+            L.append("mchop m%d %d" % (k, rng.choice(MSMALL) if rng.random() < 0.7 else msz(rng)))
+        elif r < 0.64:
+            L.append("mrealloc m%d %d" % (k, msz(rng)))
+        elif r < 0.74:
+            L.append("mreserve m%d %d" % (k, msz(rng)))
+        elif r < 0.77:
+            L.append("mclear m%d" % k)
+        elif r < 0.83:
+            L.append("mhappend m%d %d" % (k, rng.choice([0, 4, 8, 31, 32, 33, 60, 64, 65])))
+        elif r < 0.88:
+            L.append("mhinsert m%d %d" % (k, rng.choice([0, 4, 8, 32, 64, 65])))
+        elif r < 0.92:
+            L.append("mhtrim m%d %d" % (k, rng.choice([0, 4, 8, 32, 64])))
+        elif r < 0.96:
+            L.append("mhchop m%d %d" % (k, rng.choice([0, 4, 8, 32, 64])))
+        else:
+            L.append("mhclear m%d" % k)
+    return L
+
+
+def gen_msg_program(rng, ssz):
+    """message operations only: every line is compared with the model, the books must be empty at the end"""
+    ns = rng.choice([1, 2, 3, 4])
+    L = ["mssz %d" % ssz]
+    for _ in range(rng.randrange(3, 14)):
+        k = rng.randrange(ns)
+        r = rng.random()
+        if r < 0.30:
+            if rng.random() < 0.1:
+                L.append("mfail %d" % rng.randrange(2))
+            L.append("malloc m%d %d" % (k, msz(rng)))
+        elif r < 0.75:
+            L += gen_msg_ops(rng, k, rng.randrange(1, 6))
+        elif r < 0.88:
+            if rng.random() < 0.1:
+                L.append("mfail %d" % rng.randrange(2))
+            L.append("mdup m%d m%d" % (k, rng.randrange(ns + 1)))
+        else:
+            L.append("mfree m%d" % k)
+    for k in range(ns + 1):
+        L.append("mfree m%d" % k)
+    L.append("mbooks")
+    return L
+
+
+def msg_edge_programs(ssz):
+    """the deterministic part: every allocation size x every growth size through append / insert / reserve / realloc"""
+    progs = []
+    for a in [0, 1, 4, 16, 31, 32, 33, 64, 1000, 1023, 1024, 1025, 2048, 4096, 5000]:
+        for op in ("mappend", "minsert", "mreserve", "mrealloc"):
+            L = ["mssz %d" % ssz]
+            for i, g in enumerate([0, 1, 31, 32, 33, 64, 65, 100, 300, 1024, 4096]):
+                L += ["malloc m0 %d" % a, "%s m0 %d" % (op, g), "%s m0 %d" % (op, g), "mdup m0 m1", "minsert m1 %d" % (g + 1), "mfree m0", "mfree m1"]
+            L.append("mbooks")
+            progs.append(L)
+    return progs
+
+
+TRAVEL = [("pub0", "sub0"), ("pair1", "pair1"), ("pair0", "pair0"), ("push0", "pull0"), ("req0", "rep0"), ("bus0", "bus0"),
+          ("surveyor0", "respondent0")]
+
+
+def gen_msg_travel(rng, transports, ssz):
+    """grown messages travel: built in a slot by message operations, sent over a real transport (pub fan-out to two
+    sockets and a context, pair, pipeline, req/rep, bus, survey), received into slots, grown again, sent on or freed"""
+    a, bb = rng.choice(TRAVEL)
+    tr = rng.choice(transports)
+    lu, du = url_pair(rng, tr)
+    L = ["mssz %d" % ssz, "xopen s0 " + a, "xopen s1 " + bb]
+    rx = ["s1"]
+    if bb == "sub0":
+        L += ["setopt s1 x sub -", "xopen s2 sub0", "setopt s2 x sub -", "ctx c0 s2", "setopt c0 x sub -"]
+        rx = ["s1", "s2", "c0"]
+    L += ["listen s0 l0 " + lu, "dial s1 d0 " + du]
+    if bb == "sub0":
+        L.append("dial s2 d1 " + du)
+    L.append("msleep 30")
+    if rng.random() < 0.5:
+        L.append("mstyle %d" % rng.randrange(1, 7))
+    for rnd in range(rng.randrange(1, 4)):
+        L.append("malloc m0 %d" % msz(rng))
+        L += gen_msg_ops(rng, 0, rng.randrange(0, 4), fail=False)
+        if rng.random() < 0.3:
+            L += ["mdup m0 m5", "mfree m5"]
+        L.append("msend s0 m0 40")
+        for i, t in enumerate(rx):
+            L.append("mrecv %s m%d 40" % (t, i + 1))
+            L += gen_msg_ops(rng, i + 1, rng.randrange(1, 4), fail=False)
+        if a in ("pair1", "pair0", "req0", "bus0", "surveyor0") and rng.random() < 0.7:
+            # the grown message goes back
+            L += ["msend s1 m1 40", "mrecv s0 m4 40"] + gen_msg_ops(rng, 4, 2, fail=False) + ["mfree m4"]
+        if rng.random() < 0.3:
+            L.append("bsend s0 - %s 20" % ("21" * rng.choice(PADS)))
+            L.append("brecv s1 20")
+        for k in range(6):
+            L.append("mfree m%d" % k)
+    L.append("settle")
+    return L
+
+
+def fatten(case, rng):
+    """ledger scripts: let some sends carry bodies beyond the 32 bytes of tail room and build them through the other
+    allocation histories of the driver (mstyle): the protocol models are value based, they follow"""
+    out = []
+    hit = False
+    for l in case:
+        t = l.split()
+        if t and t[0] in ("send", "sendnb") and t[-1] != "-" and "[" not in t[-1] and rng.random() < 0.25:
+            n = rng.choice(PADS)
+            t[-1] = t[-1] + "".join("%02x" % (0x21 + (i * 7) % 0x5e) for i in range(n))
+            l = " ".join(t)
+            hit = True
+        out.append(l)
+    if hit or rng.random() < 0.3:
+        pos = 0
+        out.insert(pos, "mstyle %d" % rng.randrange(0, 7))
+    return out
+
+
+def travel_diff(rep, model, collected, ssz, stats):
+    """the m-lines of programs over real transports against the model: sends that succeeded take the message out of
+    the model's books (mgive), received messages enter them with the geometry the allocator reported (madopt)"""
+    scripts, expect = [], []
+    for c, out in collected:
+        sc, ex = ["mssz %d" % ssz], [None]
+        it = iter(out)
+        for cmd in c:
+            l = next(it, None)
+            while l is not None and l.startswith("x LOST"):
+                l = next(it, None)
+            if l is None:
+                break
+            op = cmd.split()[0]
+            t = cmd.split()
+            if op == "msend":
+                if l.startswith("x sent=1"):
+                    sc.append("mgive " + t[2]); ex.append(None)
+            elif op == "mrecv":
+                m = re.match(r"x adopt=(\d+):(\d+):(\d+):(\d+)", l)
+                if m:
+                    sc.append("madopt %s %s %s %s %s" % (t[2], m.group(1), m.group(2), m.group(3), m.group(4))); ex.append(None)
+            elif op in MOPS:
+                sc.append(cmd); ex.append(l)
+        scripts.append(sc); expect.append(ex)
+    if not scripts:
+        return
+    mout, mcrash = run_cases(model, scripts, timeout=240)
+    bad = []
+    for i, (sc, ex) in enumerate(zip(scripts, expect)):
+        for k, e in enumerate(ex):
+            if e is None:
+                continue
+            stats["msg_lines"] = stats.get("msg_lines", 0) + 1
+            mo = mout[i][k] if k < len(mout[i]) else None
+            if mo != e:
+                bad.append((i, k, sc[k], e, mo))
+                break
+    if bad and not rep.violations:
+        i, k, line, io, mo = bad[0]
+        p = rep.replay_file("diverge_travel_%d.case" % i, "# message operations in a program over a real transport: model and implementation differ at %r\n# impl : %s\n# model: %s\n# (%d programs diverge)\n" % (line, io, mo, len(bad)) + "\n".join(collected[i][0]) + "\n")
+        rep.violation(p, "msg-travel: correspondence chunk model<->code broken on %d programs; first: op %r\n impl =%r\n model=%r" % (len(bad), line, io, mo), nofail=True)
+    stats["diverged"] += len(bad)
+
+
+MOPS = {"malloc", "mappend", "minsert", "mtrim", "mchop", "mrealloc", "mreserve", "mclear", "mhappend", "mhinsert", "mhtrim", "mhchop",
+        "mhclear", "mdup", "mfree"}
+
+
 # ------------------------------------------------------------------ the run
 def run(tier, seed, replay=None):
     rep = Report("C03", tier, seed, level="proof (ledger) + observed (memory safety)")
@@ -754,12 +995,17 @@ def run(tier, seed, replay=None):
     rep.cov["hook_h3"] = h3
     rep.cov["driver_hello"] = hello
     rng = random.Random(seed)
+    sm = re.search(r"msgsize=(\d+)", hello)
+    ssz = int(sm.group(1)) if sm and int(sm.group(1)) > 0 else 248
+
+    def with_ssz(c):       # stored cases name the struct size of the build they were written on
+        return [("mssz %d" % ssz) if l.startswith("mssz ") else l for l in c]
     BUDGET["deadline"] = time.time() + (240 if tier == "quick" else 2700)
     BUDGET["skipped"] = []
     stats = {"cases": 0, "nontrivial": set(), "maxrefs": 0, "failed_sends": 0, "diverged": 0, "programs": 0}
     os.makedirs(SCRATCH, exist_ok=True)
     if replay:
-        case = [l.strip() for l in open(replay) if l.strip() and not l.startswith("#")]
+        case = with_ssz([l.strip() for l in open(replay) if l.strip() and not l.startswith("#")])
         if any(l.split()[0] in ("xopen", "listen", "dial", "bsend", "brecv", "device") for l in case):
             progs, cur = [], []
             for l in case:
@@ -778,8 +1024,8 @@ def run(tier, seed, replay=None):
     else:
         quick = tier == "quick"
         # (1) corpus, (2) option / cancel / close / loss at every position of every protocol's exchange
-        cases = load_corpus("C03")
-        inj = gen_injection_cases(rng, 40 if quick else None)
+        cases = [with_ssz(c) for c in load_corpus("C03")]
+        inj = [fatten(c, rng) for c in gen_injection_cases(rng, 40 if quick else None)]
         rsz = gen_resize_cases(rng)
         if quick:
             rsz = rng.sample(rsz, 2500)
@@ -788,7 +1034,7 @@ def run(tier, seed, replay=None):
         rep.cov["injection_cases"] = len(inj)
         tick("inject")
         # (3) random histories, every protocol; (4) the other protocol checks' own generators
-        rnd = [gen_random_case(rng) for _ in range(700 if quick else 25000)]
+        rnd = [fatten(gen_random_case(rng), rng) for _ in range(700 if quick else 25000)]
         ledger_run(rep, impl, model, rnd, "random", stats)
         tick("random")
         gens = borrowed_generators(rng)
@@ -799,22 +1045,38 @@ def run(tier, seed, replay=None):
                     c = g()
                     c = c[0] if isinstance(c, tuple) else c
                     # finite timeouts of the user's own aio are not part of the ledger driver's language (only 0 is)
-                    bor.append([l for l in c if not (l.startswith("aiotmo ") and l.split()[2] != "0")])
+                    # id tokens relative to a request id ([R<n>+k], C04's later extension of wb_proto.c) are not part of
+                    # the ledger driver's language either
+                    if any(RELTOK.search(l) for l in c):
+                        continue
+                    bor.append(fatten([l for l in c if not (l.startswith("aiotmo ") and l.split()[2] != "0")], rng))
                 except Exception:
                     pass
         ledger_run(rep, impl, model, bor, "borrowed", stats)
         rep.cov["borrowed_cases"] = len(bor)
         tick("borrowed")
+        # (4b) the message-manipulation family: allocator events of every call, model <-> code line by line
+        mprogs = msg_edge_programs(ssz) + [gen_msg_program(rng, ssz) for _ in range(1200 if quick else 30000)]
+        ledger_run(rep, impl, model, mprogs, "msgops", stats)
+        rep.cov["msg_programs"] = len(mprogs)
+        tick("msgops")
         # (5) programs over real transports + devices: allocator balance
         transports = ["inproc", "ipc", "tcp"]
-        plain = [gen_program(rng, transports) for _ in range(150 if quick else 6500)]
+        trav = [gen_msg_travel(rng, transports, ssz) for _ in range(36 if quick else 2500)]
+        coll = []
+        balance_run(rep, impl, trav, stats, B=18, tmo=60, collect=coll)
+        travel_diff(rep, model, coll, ssz, stats)
+        rep.cov["msg_travel_programs"] = len(trav)
+        rep.cov["msg_travel_lines_compared"] = stats.get("msg_lines", 0)
+        tick("msgtravel")
+        plain = gen_midmsg_programs(rng) + [gen_program(rng, transports) for _ in range(140 if quick else 6500)]
         devs = [gen_device_program(rng, ["inproc", "ipc"]) for _ in range(24 if quick else 1500)]
         devs += [gen_device_stress(rng, k) for k in range(18 if quick else 1200)]
         balance_run(rep, impl, plain, stats)
         # device tear-down under traffic: small processes and a short timeout keep a hang of the library cheap
         balance_run(rep, impl, devs, stats, B=6, tmo=25)
         tick("balance")
-        fini_check(rep, impl, plain[:100 if quick else 600], stats)
+        fini_check(rep, impl, plain[:100 if quick else 600] + trav[:12 if quick else 300], stats)
         for k in range(0, len(devs) if not quick else 12, 6):
             fini_check(rep, impl, devs[k:k + 6], stats, tmo=25)
         tick("fini")
@@ -836,7 +1098,14 @@ def run(tier, seed, replay=None):
                        "hook H3) and on the extracted models with the extracted ledger; after every command: refs/live equal, failed sends keep their "
                        "message, sized frees, nothing alive after close.  balance runs: API programs over inproc/ipc/tcp (blocking, aio, contexts, "
                        "options, pipe/listener/dialer close, devices started and stopped): only sanitizers, sized frees, counters after close, "
-                       "0 bytes outstanding after nng_fini are judged (nothing timing dependent).  non-trivial = the library held a message at some point")
+                       "0 bytes outstanding after nng_fini are judged (nothing timing dependent).  non-trivial = the library held a message at some point.  "
+                       "message-manipulation runs: nng_msg_alloc / append / insert / trim / chop / realloc / reserve / clear / header ops / dup / free "
+                       "on slots (every allocation size x growth size across the head / tail room and the 1024 power-of-two rule, random programs, "
+                       "injected allocation failures), the allocator events A<size> / F<alloc>:<freed-as> of every call and the body block's real "
+                       "size and head room compared line by line with the extracted chunk model (Ledger/ChunkAlloc.v); the same operations on "
+                       "messages that travel over inproc/ipc/tcp (pub fan-out, pair, pipeline, req/rep, bus, survey); sends of the ledger runs build "
+                       "bodies of 30..1000 extra bytes through 7 allocation histories; any free on any thread whose size differs from the "
+                       "allocation's is the observation free-size-mismatch <alloc> <free> = violation")
     rep.assumptions += ["memory safety proper (use-after-free / out-of-bounds inside code that the models do not cover) is OBSERVED by ASan/UBSan on the generated programs, not proved",
                         "identity of references inside a protocol is by body bytes (the models are value based)"]
     return rep.finish()
